@@ -11,6 +11,14 @@ import "time"
 // then elapsed) or by a signal after an arbitrary non-negative elapsed time
 // (remaining = timeout - elapsed, possibly negative). A signal comes from a
 // Return of another holder, which the stub may perform.
+//
+// This contract is not taken on trust: H18w/H18wf (h18w_cond.go) run the REAL
+// Cond under a virtual clock and prove it - timer branch: (0, false), and never
+// before the timeout has elapsed (scenario a); signal branch after elapsed
+// e < timeout: exactly (timeout - e, true) (scenarios b, d). The stub is wider
+// than that in one respect, on purpose: it also allows a signal with
+// elapsed >= timeout (a Signal racing the timer, or a waiter that is woken
+// late), which H18w does not explore.
 var (
 	verifTL        *TimeoutLimit
 	verifElapsed   time.Duration // total time spent waiting
